@@ -332,6 +332,16 @@ def stepA (C : Cfg) (s : St) (dt : Rat) (cm : Comm) : St :=
   (ns.filter (fun n => isMg C n)).foldl (fun s n => mgLoopA C s n dt cm) s2
 
 
+/-- `MainController.spread_sectioning_time_to_sub_controllers` after a software failure of the main controller that
+took `S` hours to cure (new signal, reboot): every sub-controller whose breaker is open keeps the larger of its own
+sectioning time and `S`.  (Happens at the end of `update_fail_status`, before the control loops of the increment.) -/
+def spreadTimers (C : Cfg) (cbOpen : List Bool) (S : Rat) (timer : List Rat) : List Rat :=
+  (List.range C.nets.length).foldl
+    (fun t n => if gb cbOpen (C.nets.getD n default).cb then t.set n (if gr t n < S then S else gr t n) else t) timer
+
+def spreadSec (C : Cfg) (s : St) (S : Rat) : St :=
+  { s with timer := spreadTimers C s.cbOpen S s.timer }
+
 /-! ### the observed properties, as executable predicates -/
 
 /-- C05: whenever a network's breaker is closed, no failed line of that network is in service -/
